@@ -179,6 +179,12 @@ func (s *Specs) LoadFile(path, pkgPath string) error {
 	}
 	parseClause := func(l rawLine, rest string) (Clause, error) {
 		label := ""
+		cprop := ""
+		// optional "[Cnn]" prefix: this clause reports to that property instead of the block's
+		if m := regexp.MustCompile(`^\[(C[0-9]+)\]\s*(.*)$`).FindStringSubmatch(rest); m != nil {
+			cprop = m[1]
+			rest = m[2]
+		}
 		// optional "label:" prefix (identifier followed by ':' but not '::')
 		if m := regexp.MustCompile(`^([A-Za-z_][A-Za-z0-9_]*)\s*:([^:].*)$`).FindStringSubmatch(rest); m != nil {
 			label = m[1]
@@ -188,7 +194,7 @@ func (s *Specs) LoadFile(path, pkgPath string) error {
 		if err != nil {
 			return Clause{}, fail(l, "%v", err)
 		}
-		return Clause{Label: label, Src: rest, E: e, File: path, Line: l.line}, nil
+		return Clause{Label: label, Src: rest, E: e, File: path, Line: l.line, Prop: cprop}, nil
 	}
 	for _, l := range lines {
 		kw := kwRe.FindString(l.text)
